@@ -668,7 +668,12 @@ func validateBatchWriteItemInput(input *dynamodb.BatchWriteItemInput) error {
 
 	count := 0
 
-	for _, reqs := range input.RequestItems {
+	for tableName, reqs := range input.RequestItems {
+		if len(reqs) == 0 {
+			// every table the batch names has at least one request
+			return awserr.New("ValidationException", "The batch write request list for a table cannot be null or empty: "+tableName, nil)
+		}
+
 		for _, req := range reqs {
 			err := validateWriteRequest(req)
 			if err != nil {
